@@ -142,6 +142,41 @@ def run_rtx_case(case):
     return out
 
 
+def gen_rr_case(rng):
+    """well-formed RTP from n synchronisation sources at one receiver, then one round of its reporting loop while
+    media keeps arriving"""
+    n = rng.choice([1, 2, 5, 30, 31, 32, 33, 62, 63, 70, 130])
+    return ["rr", n, rng.randrange(65536), rng.randrange(1, 4)]
+
+
+def run_rr_case(case):
+    """one round of the real RTCRtpReceiver._run_rtcp (the first packet of a new source is handled during each
+    transport send): how many report blocks parse back from the wire, and whether the loop survived"""
+    import struct as _struct
+    from harness.props import c05
+    _, n, seq, per = case
+    pkts = []
+    for i in range(n):
+        for k in range(per):
+            hdr = _struct.pack("!BBHLL", 0x80, 100, (seq + k) & 0xFFFF, 1000 + 3000 * k, 1000000 + i)
+            pkts.append(list(hdr + b"\x10\x00\x00\x01data"))
+    return c05.run_rx({"k": "rx", "codec": 0, "packets": pkts})
+
+
+def oracle_rr_case(case, out):
+    if out.get("harness_error"):
+        return None
+    if out.get("raised"):
+        return ("receiver-raised", f"_handle_rtp_packet raised {out['raised']}")
+    if out.get("report_raised"):
+        return ("receiver-report-raised", f"{case[1]} synchronisation sources, media arriving while the reports are sent: the "
+                                          f"receiver's RTCP loop (_run_rtcp) dies with {out['report_raised']}; no further reports are sent")
+    if out.get("report_unparsable") or "report_blocks" in out:
+        return ("receiver-report-malformed", f"{case[1]} synchronisation sources: the reports on the wire are malformed or incomplete "
+                                             f"({out.get('report_unparsable') or str(out.get('report_blocks')) + ' report blocks parse back'})")
+    return None
+
+
 class C18(Check):
     prop = "C18"
     props_file = "Props/C18.v"
@@ -159,6 +194,8 @@ class C18(Check):
         "rounding of real wall-clock values, RtcpReceiverInfo.parse; getStats() is only observed (probes of the "
         "receiver-driven cases read packetsLost / jitter / packetsReceived through it).")
     rule = (
+        "(extra checks, oracle only: RTX repair packets at a real receiver; one round of the real _run_rtcp with 1-130 sources "
+        "while the first packet of a new source is handled during every transport send) "
         "random arrival histories of 1-120 events (one of 600-2500 events per 50 cases, one of >131000 in-order "
         "packets per 400 cases so that the extended highest sequence number passes 2^32 and cumulative loss passes "
         "the 24-bit clamp): start sequence anywhere (half of them within 300 of the wrap), per-case rates of loss "
@@ -318,6 +355,8 @@ class C18(Check):
         return [case[0], case[1], case[4]]
 
     def describe_case(self, case):
+        if case and case[0] == "rr":
+            return {"report_round": {"sources": case[1], "first_seq": case[2], "packets_per_source": case[3]}}
         if case and case[0] == "rtx":
             return {"rtx_case": case[1]}
         if len(case[4]) > 60:
@@ -325,6 +364,10 @@ class C18(Check):
         return case
 
     def shrink_candidates(self, case):
+        if case and case[0] == "rr":
+            for n in range(1, case[1]):
+                yield ["rr", n, case[2], 1]
+            return
         if case and case[0] == "rtx":
             for i in range(len(case[1])):
                 yield ["rtx", case[1][:i] + case[1][i + 1:]]
@@ -359,9 +402,21 @@ class C18(Check):
                 out.append(("packets-received-wrong-stream", f"RTP arrivals per SSRC on the wire {res.get('want')}, counted "
                                                              f"{res.get('got')}", case))
                 break
+        # `building and sending a receiver report never fails`: the real reporting loop, 1..130 sources (a report holds
+        # 31 blocks), media arriving while the reports are being sent
+        m = 60 if ctx["tier"] == "thorough" else 12
+        self.rr_cases = m
+        for _ in range(m):
+            case = gen_rr_case(rng)
+            res = oracle_rr_case(case, run_rr_case(case))
+            if res:
+                out.append((res[0], res[1], case))
+                break
         return out
 
     def impl_run(self, case):
+        if case and case[0] == "rr":
+            return run_rr_case(case)
         if case and case[0] == "rtx":
             return run_rtx_case(case)
         import asyncio
@@ -479,6 +534,8 @@ class C18(Check):
 
     # ------------------------------------------------------------ oracle: the property on the implementation
     def oracle(self, case, impl_out):
+        if case and case[0] == "rr":
+            return oracle_rr_case(case, impl_out)
         if case and case[0] == "rtx":
             if impl_out.get("got") != impl_out.get("want"):
                 return ("packets-received-wrong-stream", f"RTP arrivals per SSRC on the wire {impl_out.get('want')}, counted "
